@@ -464,6 +464,9 @@ struct Cfg {
     limit: usize,
     mech: u8,
     fp: bool,
+    /// build the client from the library's DEFAULT configuration (RttConfig::default(), default outstanding limit); the
+    /// other fields then hold the documented defaults (500 ms, Rm 16, Rc 7, 1 ms, 10) that the model is given
+    defaults: bool,
 }
 #[derive(Clone, Debug)]
 enum Op {
@@ -488,7 +491,9 @@ struct Run {
 }
 
 fn build_client(c: &Cfg) -> StunClient {
-    let rel = if c.reliable {
+    let rel = if c.defaults {
+        TransportReliability::Unreliable(RttConfig::default())
+    } else if c.reliable {
         TransportReliability::Reliable(Duration::from_nanos(c.rto))
     } else {
         TransportReliability::Unreliable(RttConfig {
@@ -498,7 +503,8 @@ fn build_client(c: &Cfg) -> StunClient {
             rc: c.rc,
         })
     };
-    let mut b = StunClienteBuilder::new(rel).with_max_transactions(c.limit);
+    let mut b = StunClienteBuilder::new(rel);
+    if !c.defaults { b = b.with_max_transactions(c.limit) }
     b = match c.mech {
         1 => b.with_mechanism(user_str(0), pass_str(0), stun_agent::CredentialMechanism::ShortTerm(None)),
         2 => b.with_mechanism(user_str(0), pass_str(0), stun_agent::CredentialMechanism::ShortTerm(Some(Integrity::MessageIntegrity))),
@@ -530,7 +536,7 @@ impl Run {
     }
     fn header(&self) -> String {
         let c = &self.cfg;
-        format!("H {} {} {} {} {} {} {} {}", c.reliable as u8, c.rto, c.rm, c.rc, c.gran, c.limit, c.mech, c.fp as u8)
+        format!("H {} {} {} {} {} {} {} {}{}", c.reliable as u8, c.rto, c.rm, c.rc, c.gran, c.limit, c.mech, c.fp as u8, if c.defaults { " d" } else { "" })
     }
     fn at(&self, ns: u64) -> Instant {
         self.epoch + Duration::from_nanos(ns)
@@ -788,6 +794,10 @@ fn err_tag(e: &StunAgentError) -> String {
 
 // ------------------------------------------------------------------------------------------ generators
 fn gen_cfg(rng: &mut Rng) -> Cfg {
+    if rng.chance(1, 12) {
+        // the library defaults (RFC 8489: RTO 500 ms, Rm 16, Rc 7; granularity 1 ms; 10 outstanding requests)
+        return Cfg { reliable: false, rto: 500_000_000, rm: 16, rc: 7, gran: 1_000_000, limit: 10, mech: *rng.pick(&[0u8, 0, 1, 4]), fp: rng.chance(1, 3), defaults: true };
+    }
     let reliable = rng.chance(1, 4);
     let rto = *rng.pick(&[1_000_000u64, 20_000_000, 500_000_000, 500_000_000, 3_000_000_000, 7_300_001]);
     Cfg {
@@ -799,6 +809,7 @@ fn gen_cfg(rng: &mut Rng) -> Cfg {
         limit: *rng.pick(&[0usize, 1, 1, 2, 2, 3, 4, 10]),
         mech: *rng.pick(&[0u8, 0, 1, 1, 2, 3, 4, 4, 4]),
         fp: rng.chance(1, 3),
+        defaults: false,
     }
 }
 
@@ -931,7 +942,7 @@ fn gen_reply(rng: &mut Rng, cfg: &Cfg, run: &Run, srv: &mut Server, now: u64) ->
 /// idle gaps around the 600 s staleness boundary
 fn gen_rtt_history(rng: &mut Rng, out: &mut Out, stats: &mut HashMap<String, u64>) {
     let rto = *rng.pick(&[500_000_000u64, 100_000_000, 1_000_000_000, 37_000_001]);
-    let cfg = Cfg { reliable: false, rto, rm: 16, rc: 7, gran: *rng.pick(&[1_000_000u64, 0, 50_000_000]), limit: 10, mech: 0, fp: false };
+    let cfg = Cfg { reliable: false, rto, rm: 16, rc: 7, gran: *rng.pick(&[1_000_000u64, 0, 50_000_000]), limit: 10, mech: 0, fp: false, defaults: false };
     let mut run = Run::new(cfg.clone());
     out.rec(&run.header());
     let mut now: u64 = 5;
@@ -1034,7 +1045,7 @@ fn replay(lines: Vec<String>, out: &mut Out) {
             "H" => {
                 let cfg = Cfg {
                     reliable: f[1] == "1", rto: f[2].parse().unwrap(), rm: f[3].parse().unwrap(), rc: f[4].parse().unwrap(),
-                    gran: f[5].parse().unwrap(), limit: f[6].parse().unwrap(), mech: f[7].parse().unwrap(), fp: f[8] == "1",
+                    gran: f[5].parse().unwrap(), limit: f[6].parse().unwrap(), mech: f[7].parse().unwrap(), fp: f[8] == "1", defaults: f.get(9) == Some(&"d"),
                 };
                 let r = Run::new(cfg);
                 out.rec(&r.header());
